@@ -9,7 +9,7 @@ NOTE = ("Trusted base: go/types, go/packages, x/tools go/cfg (and go/ssa + VTA c
         "and the rule tables in checker/. Assumes user callbacks behave as the property's provisos say and that no "
         "reflection/unsafe touches the anchored state. Decides structural necessary conditions, not the behavioural statement as a whole. "
         "Before the rules run the program is normalised (helpers unknown to the rules expanded in place, log statements removed, nested/consecutive ifs "
-        "merged; DESIGN.md 7.11). Only a violated obligation fails the check; an obligation that cannot be applied to the tree (construct moved or "
+        "merged; DESIGN.md 7.11, 7.12). Only a violated obligation fails the check; an obligation that cannot be applied to the tree (construct moved or "
         "renamed) is printed as UNDECIDED, recorded in the evidence, and does not fail it.")
 
 # id -> (text of the claim, technique, design section)
@@ -128,11 +128,29 @@ EXTRA9 = {
 REASONS = {}
 
 checks, na = [], []
+# rounds 11/12 (mixed commits and their benign halves; DESIGN.md 7.12)
+EXTRA12 = {
+ 'C02': "Rounds 11-12: every way from integer syntax to the float coercion passes the exact parse (first-byte tests evaluated for '-', '0', '5', '9'); a hand-written id parser is UNDECIDED; no loop of the batch bookkeeping ranges over a collection its guards say is empty.",
+ 'C03': "Rounds 11-12: a goroutine that sends a notification is joined before the notifying function returns.",
+ 'C04': "Rounds 11-12: the bound of the notice's context depends on notifyCancellationTimeout and on nothing the caller's context says (WithTimeout or WithDeadline, through helpers); values followed through locals and on-the-spot literal parameters.",
+ 'C05': "Rounds 11-12: the notification counter is paired by a flag or by return-on-captured-error plus an unconditional deferred decrement.",
+ 'C09': "Rounds 11-12: the read error of the event scanner is compared with io.EOF and with no other sentinel.",
+ 'C11': "Rounds 11-12: startPOST/endPOST decided by evaluating their branch conditions for 0,1,2,3,7 POSTs in flight (re-arm only when the last one ends, always counted); members promoted from an embedded struct resolve.",
+ 'C12': "Rounds 11-12: the byte classes of the header encoder evaluated at 0x00,0x1F,0x20,'A',0x7E,0x7F,0x80,0xFF; binding paths fresh by role over everything behind extractParamHeaderAnnotations.",
+ 'C14': "Rounds 11-12: the per-request handler may be the ServeHTTP method of a type the constructor instantiates (fields set once from its parameters); status codes held in variables resolved per scenario.",
+ 'C15': "Rounds 11-12: which metadata fields each URL check sees is decided row by row, with the row's boolean columns substituted into the loop's conditions.",
+ 'C16': "Rounds 11-12: the by-type schema cache is neither read nor filled when a schema was provided in any form; the typed-input decode is found in generic helpers.",
+ 'C17': "Rounds 11-12: only NextCursor and the caller's own cursor are ever written into the params' cursor; one notion of 'index not built'; a bad cursor maps to invalid-params through any chain of helpers; an index maintained in place is UNDECIDED.",
+ 'C18': "Rounds 11-12: a debouncer, subscription table or fill token of another design is UNDECIDED.",
+ 'C19': "Rounds 11-12: what ReadSlice/ReadLine/Peek/Scanner.Bytes hand out is copied before it is stored or collected.",
+ 'C20': "Rounds 11-12: SessionClosed forgets the session on every path; list references counted through package structs and composite keys, a cache is tolerated only if SessionClosed resets it.",
+}
+
 for p in props:
     i = p['id']
     if i in CLAIMS:
         text, tech, ref = CLAIMS[i]
-        add = ' '.join(x for x in (EXTRA.get(i), EXTRA9.get(i)) if x)
+        add = ' '.join(x for x in (EXTRA.get(i), EXTRA9.get(i), EXTRA12.get(i)) if x)
         if add:
             j = text.rfind('Not decided:')
             text = (text[:j] + add + ' ' + text[j:]) if j >= 0 else text + ' ' + add
